@@ -183,6 +183,18 @@ class BodyPart:
                 description='invalid text or charset: {}'.format(charset)
             ) from err
 
+    def _get_content_disposition(self) -> Tuple[str, Dict[str, str]]:
+        if self._content_disposition is None:
+            value = self._headers.get(b'content-disposition', b'')
+            try:
+                self._content_disposition = parse_header(value.decode())
+            except ValueError as err:
+                raise MultipartParseError(
+                    description='invalid Content-Disposition body part header'
+                ) from err
+
+        return self._content_disposition
+
     @property
     def content_type(self) -> str:
         """Value of the Content-Type header.
@@ -193,17 +205,18 @@ class BodyPart:
         #   Each part MAY have an (optional) "Content-Type" header field, which
         #   defaults to "text/plain".
         value = self._headers.get(b'content-type', b'text/plain')
-        return value.decode('ascii')
+        try:
+            return value.decode('ascii')
+        except ValueError as err:
+            raise MultipartParseError(
+                description='invalid Content-Type body part header'
+            ) from err
 
     @property
     def filename(self) -> Optional[str]:
         """File name if the body part is an attached file, and ``None`` otherwise."""
         if self._filename is _UNSET:
-            if self._content_disposition is None:
-                value = self._headers.get(b'content-disposition', b'')
-                self._content_disposition = parse_header(value.decode())
-
-            _, params = self._content_disposition
+            _, params = self._get_content_disposition()
 
             # NOTE(vytas): Supporting filename* as per RFC 5987, as that has
             #   been spotted in the wild, even though RFC 7578 forbids it.
@@ -254,11 +267,7 @@ class BodyPart:
             missing; the property value will be ``None`` in that case.
         """
         if self._name is _UNSET:
-            if self._content_disposition is None:
-                value = self._headers.get(b'content-disposition', b'')
-                self._content_disposition = parse_header(value.decode())
-
-            _, params = self._content_disposition
+            _, params = self._get_content_disposition()
             self._name = params.get('name')
 
         return self._name
